@@ -112,6 +112,7 @@ type harness struct {
 	cycleClean     bool
 	cycleN         int
 	cycleScanStart int64
+	expectedPost   map[string]*core.Entry
 	pending   map[string][]pendingResult
 
 	// disk scenario
@@ -507,17 +508,29 @@ func (h *harness) checkPlan(a, b *scanRecord) {
 	h.mu.Lock()
 	h.expectedPlan = map[string][]*core.Change{"alpha": at, "beta": bt}
 	// C04 per cycle: if the previous cycle applied everything it planned
-	// exactly and the user touched nothing since that cycle's scans began,
-	// this cycle must plan nothing for either endpoint or the archive.
+	// exactly and this cycle's scans return exactly the trees that cycle left
+	// behind, this cycle must plan nothing for either endpoint or the archive.
 	prevClean := h.cycleClean && h.cycleN == a.n-1 && h.cycleN > 0 &&
-		h.userSeq["alpha"] < h.cycleScanStart && h.userSeq["beta"] < h.cycleScanStart
+		deepEqual(h.expectedPost["alpha"], a.content) && deepEqual(h.expectedPost["beta"], b.content)
 	h.cycleClean, h.cycleN = true, a.n
 	h.cycleScanStart = min(a.started, b.started)
+	post := func(content *core.Entry, ts []*core.Change) *core.Entry {
+		out := cloneEntry(content)
+		for _, t := range ts {
+			if t.Path == "" {
+				out = cloneEntry(t.New)
+			} else {
+				out, _ = setAt(out, t.Path, cloneEntry(t.New))
+			}
+		}
+		return out
+	}
+	h.expectedPost = map[string]*core.Entry{"alpha": post(a.content, at), "beta": post(b.content, bt)}
 	h.mu.Unlock()
 	if prevClean {
 		h.s.Count("probe.fixpoint_cycles_checked", 1)
 		if len(at)+len(bt)+len(anc) > 0 {
-			h.s.Violate("C04", "not-a-fixpoint", "cycle", "the previous cycle applied all of its changes exactly and nothing was edited since, yet this cycle plans %d alpha changes, %d beta changes and %d archive changes; mode %v ancestor %s alpha %s beta %s", len(at), len(bt), len(anc), h.mode, render(a.ancestor), render(alpha), render(beta))
+			h.s.Violate("C04", "not-a-fixpoint", "cycle", "the previous cycle applied all of its changes exactly and the endpoints hold exactly what it left, yet this cycle plans %d alpha changes, %d beta changes and %d archive changes; mode %v ancestor %s alpha %s beta %s", len(at), len(bt), len(anc), h.mode, render(a.ancestor), render(alpha), render(beta))
 		}
 	}
 	type item struct {
